@@ -479,9 +479,35 @@ def c15(tier):
         # CRLF sources: the line breaks inside multi-line comments and literals are CRLF too
         tasks += program_tasks(tier, "six", [CRLFML, CRLFML2], cfg_mode="rotate", sample_every=Q(tier, 499, 4999))
         c.explore(tasks, f"cursors_{label}", ["C15"], vh=vh, sample_cap=Q(tier, 100, 500))
+    # through the command line (anchor: exec_format / output_new_cursors): what it reports is what the core computes
+    import cli, random
+    build(("cli",))
+    rnd = random.Random(SEED)
+    scen = []
+    for i, t in enumerate(seed_texts(Q(tier, 60, 600))):
+        if i % 2 == 0:
+            t = t.rstrip()                       # no final line break: the formatter appends one
+        n = len(t.encode())
+        ascii_only = t.isascii()
+        inner = sorted(rnd.sample(range(0, n + 1), min(6, n + 1))) if ascii_only else [0]
+        cur = inner + [n, n + 1, n + 100, 4000000000]
+        if i % 3 == 1:
+            cur = list(reversed(cur))
+        scen.append({"text": t, "cursors": cur})
+    res = cli.run_scenarios(cli.run_cursor_scenario, scen)
+    ran = 0
+    for sc, (problems, skipped) in zip(scen, res):
+        if skipped:
+            continue
+        ran += 1
+        for p in problems:
+            c.add_violation({"prop": "C15", "clause": p["clause"], "detail": p["detail"], "case": {"label": "cli-cursors", "text": sc["text"]}, "confirmed_by_tlc": True})
+    c.evaluations += ran
+    c.nontrivial += ran
+    c.extra["cli_cursor_scenarios"] = ran
     return c.finish(
         rule="for every input a cursor list (every token start and end, offsets inside blanks and inside multi-line tokens, 0, end, end+1, end+7, 2^32-1; at most 400 per input; in ascending, descending, interleaved or repeated order) is tracked; inputs: seeds, programs derived from Grammar.tla (also as CRLF sources whose multi-line comments and literals hold CRLF), soup, truncations, walks; "
-             "clauses: text unchanged (relation cursor), within output on a character boundary, same offset inside an unchanged token, beyond the end -> end")
+             "clauses: text unchanged (relation cursor), within output on a character boundary, same offset inside an unchanged token, beyond the end -> end; through the command line (stdin and file, inputs with and without a final line break, cursors up to 4e9, ascending and descending): the CURSOR line equals what the core computes for the same text")
 
 
 # =====================================================================================================  grammar-generated programs
